@@ -326,7 +326,7 @@ theorem preRule_fold (p q : List Label) :
 theorem nuget_spec (a b : V) (ha : a.wf = true) (hb : b.wf = true) :
     compareStr .nuget (render a) (render b) = .ofOrd (NuGetSpec.specCmp a b) := by
   show nugetFam.compareStr (render a) (render b) = _
-  simp only [Family.compareStr, Family.cmpParsed, nugetFam, CRes.toOutcome, parse_render_nuget]
+  simp only [Family.compareStr, Family.cmpParsed, nugetFam_parse, nugetFam_cmp, CRes.toOutcome, parse_render_nuget]
   congr 1
   unfold cmpNuGet NuGetSpec.specCmp
   simp only [compsCmp_cast, nums_cmp, lower_tail a ha, lower_tail b hb,
